@@ -1068,3 +1068,9 @@ pub fn hinted<T>(items: Vec<T>, hint: (usize, Option<usize>)) -> Hinted<std::vec
 pub fn hinted_any<T>(items: Vec<T>, hint: (usize, Option<usize>)) -> Hinted<std::vec::IntoIter<T>> {
     Hinted { inner: items.into_iter(), lo: hint.0, hi: hint.1 }
 }
+
+/// One honest hint shape for `len` items, chosen by `salt`.
+pub fn hint_pick(len: usize, salt: usize) -> (usize, Option<usize>) {
+    let h = honest_hints(len);
+    h[salt % h.len()]
+}
